@@ -100,6 +100,8 @@ def call_pseudo(res, every: int, rescale: bool, own_axes: bool = False):
             if own_axes:
                 import matplotlib.pyplot as plt  # noqa: PLC0415
 
+                # two figures in a row without an axes argument (the first one is still open): each call draws its own figure
+                plot_pseudopressure(res, every=max(1, every // 2 + 1), rescale=rescale)
                 ax = plot_pseudopressure(res, every=every, rescale=rescale, **XMAX[every % 3])
                 out = lines(ax)
                 plt.close("all")
@@ -118,6 +120,15 @@ def call_curve(which: str, res, ticks: bool):
     w = quiet()
     try:
         with np.errstate(all="ignore"):
+            if ticks and which == "rate":
+                # without an axes argument, right after another figure of the same helper that is still open
+                import matplotlib.pyplot as plt  # noqa: PLC0415
+
+                fn(res, change_ticks=ticks)
+                ax2 = fn(res, change_ticks=ticks)
+                out = lines(ax2), ax2.get_xscale(), ax2.get_yscale()
+                plt.close("all")
+                return out
             _, ax = new_axes()
             ax2 = fn(res, ax, change_ticks=ticks)
             return lines(ax2), ax2.get_xscale(), ax2.get_yscale()
@@ -141,7 +152,10 @@ def call_comparison(rows: list[dict], filter_: bool, window, M: float, tau: floa
 
     prod = pd.DataFrame(rows, columns=["Days", "Gas", "Pressure"])
     for name, col in (extra or {}).items():   # other metered columns of the same table (with gaps of their own)
-        prod[name] = col
+        if name != "__index__":
+            prod[name] = col
+    if extra and "__index__" in extra:   # row labels that are not unique (several exports concatenated, a table indexed by well id)
+        prod.index = extra["__index__"]
     params = Parameters()
     params.add("M", M)
     params.add("tau", tau)
@@ -364,6 +378,9 @@ def project_comparison(cfg: dict) -> dict:
         water = rng.uniform(0.0, 5.0, n)
         water[rng.choice(n, max(2, n // 6), replace=False)] = np.nan
         extra = {"Water": water, "Comment": ["" if i % 7 else None for i in range(n)]}
+    if cfg.get("dup_index"):
+        extra = dict(extra or {})
+        extra["__index__"] = [i % max(2, n // 3) for i in range(n)]
     out = call_comparison(rows, cfg["filter"], cfg["window"], cfg["M"], cfg["tau"], cfg["p_initial"], extra)
     keep = (gas > 0) & ~np.isnan(press) if cfg["filter"] else np.ones(n, dtype=bool)
     time = np.arange(int(keep.sum()), dtype=float) if cfg["filter"] else days
@@ -404,7 +421,18 @@ def project_transform(cfg: dict) -> dict:
     fwd = np.asarray(t.transform(a), dtype=float)
     ev = {"ev": "Transform", "classes": classes, "scale": ax.get_xscale(), "n": len(a)}
     ev["fwd_ulp"] = ulps_arr(fwd, np.sqrt(a))
-    ev["back_ulp"] = ulps_arr(np.asarray(inv.transform(t.transform(a)), dtype=float), a)
+    # whole numbers in narrow integer columns (day counts, step counters): the transform is the square root in double precision
+    # whatever integer type holds the values
+    for small in (np.arange(0, 256, dtype=np.uint8), (np.arange(0, 3000, 7)).astype(np.int16), np.array([0, 1, 4, 1059, 2050], dtype=np.uint16),
+                  np.arange(0, 120, dtype=np.int8)):
+        try:
+            got = np.asarray(t.transform_non_affine(small), dtype=float)
+            back = np.asarray(inv.transform_non_affine(t.transform_non_affine(small)), dtype=float)
+            ev["fwd_ulp"] = max(ev["fwd_ulp"], ulps_arr(got, np.sqrt(small.astype(float))))
+            ev["back_ulp_int"] = max(ev.get("back_ulp_int", 0), ulps_arr(back, small.astype(float)))
+        except Exception:  # noqa: BLE001
+            ev["fwd_ulp"] = CAP
+    ev["back_ulp"] = max(ulps_arr(np.asarray(inv.transform(t.transform(a)), dtype=float), a), ev.pop("back_ulp_int", 0))
     ev["back2_ulp"] = ulps_arr(np.asarray(t.transform(inv.transform(a)), dtype=float), a)
     # the path matplotlib itself takes: non-affine parts, and the blended scale transform of the Axes
     p1 = ulps_arr(np.asarray(inv.transform_non_affine(t.transform_non_affine(a)), dtype=float), a)
